@@ -72,3 +72,8 @@ claim("C06", "sibling stage-sequence comparison of the two body paths, error-edg
       "Decides: Body and BodyNonAtomic run the same ordered stages; after an error of any check stage no success return and no hand-over to a target is reachable; reject has its own once-guarded slot, is returned first after Wait, quarantine accumulates and is copied to the message; new check states are published only after a successful replay. 'Exactly once per check' over completion orders is not explored.",
       "trusts go/types, go/cfg", "DESIGN.md §3 C06")
 PENDING.pop("C06", None)
+
+claim("C07", "exhaustiveness of the action switch against the policy constants of the library type, all-paths queries (go/cfg) on the reject/quarantine cases, abstract path evaluation of the reject code per temporary-error branch, fail-closed world queries on Verifier.Apply, reader/writer agreement on the lookup-error form",
+      "Decides ONLY the enforcement plumbing: every published action has a handler, reject refuses on all paths (4yz exactly on the temporary-error branch), quarantine flags on all paths; Apply returns none without a record and rejects under a temporariness test when the lookup failed; FetchRecord hands lookup errors to that test unwrapped (Apply uses a plain type assertion). The DMARC verdict table (alignment, organizational domains, pct, subdomain policy, From shapes) is a value-level function and is NOT decided: a change inside EvaluateAlignment/isAligned/ExtractFromDomain is invisible to this check.",
+      "trusts go/types, go/cfg", "DESIGN.md §3 C07")
+PENDING.pop("C07", None)
